@@ -198,6 +198,30 @@ prop(
     thorough=dict(checks=15000, shards=16),
 )
 
+prop(
+    "C10",
+    title="Single-element expanders agree with spec expansion and never touch the root",
+    technique="property-based testing (rapid) against the reference model: every referable element of a generated root expanded through every entry point (typed root, generic root, base location), the result spliced back into the root and compared by bisimulation + cut-point validity; root JSON and caller options compared before/after",
+    rule=GRAPH_RULE + "Domain split as the API documents: half of the cases are graphs whose $refs are fragment-only or absolute URLs (60% of them single-document) and go through all six entry points with typed and generic roots; the other half are full multi-document graphs with relative $refs and go through the base-location entry points (ExpandSchemaWithBasePath, ExpandParameter, ExpandResponse). Every definition, parameter and response of the root is expanded. Non-trivial = some expanded element reaches a $ref; distinct by hash of the case",
+    design_ref="DESIGN.md §4 C10",
+    level_text="exploration: the guarantees of whole-spec expansion (C02 meaning, C03 completeness and cut-points) are checked for each single-element call by putting the result back at the element's position; a panic or an error on a graph whose $refs all resolve is a failure; the root passed as context (deep-compared as JSON) and the option structure must be unchanged",
+    level_note="the element is decoded on its own, so it shares no storage with the root; the root-based entry points do not know the root's location, so the fragment-only spelling rule is demanded of the base-location entry points only",
+    quick=dict(checks=300, shards=4),
+    thorough=dict(checks=2500, shards=16),
+)
+
+prop(
+    "C18",
+    title="A resolution cache is transparent; documents are fetched at most once",
+    technique="property-based testing (rapid), differential/metamorphic oracle: the same expansion with no cache, a fresh logging cache, a cache pre-loaded with a generated subset of the documents and one cache reused across a generated sequence of expansions; outputs compared byte-wise (acyclic) or by bisimulation (cyclic), loader traffic checked against the at-most-once and never-request-what-is-cached rules",
+    rule=GRAPH_RULE + "65%: multi-document graphs, sequences of 1-4 ExpandSchemaWithBasePath calls on definitions of the root; 35%: fragment-only/absolute-URL graphs, sequences over ExpandSchema / ExpandParameterWithRoot / ExpandResponseWithRoot with typed and generic roots; each document independently pre-loaded with probability 1/2; every case ends with one ExpandSpec for the at-most-once clause. Non-trivial = an expansion reads >=2 documents and something was pre-loaded or the cache was reused; distinct by hash of the case",
+    design_ref="DESIGN.md §4 C18",
+    level_text="exploration: 4 cache states per expansion; byte equality of outputs for acyclic elements, bisimilarity with the input + cut-point validity for cyclic ones (their text legitimately depends on map order); per expansion no URL is requested twice, no pre-loaded URL is requested at all, a reused cache makes later expansions request nothing that an earlier one loaded; loader URLs and cache keys must be canonical absolute URLs",
+    level_note="the harness' ResolutionCache is a plain logging map; pre-loaded documents are generic JSON under their canonical URLs",
+    quick=dict(checks=250, shards=4),
+    thorough=dict(checks=2000, shards=16),
+)
+
 
 def manifest():
     allids = []
